@@ -9,6 +9,7 @@ for d in sorted(glob.glob(H+"/seeded/*/")):
     m=json.load(open(d+"/meta.json"))
     name=os.path.basename(d)
     det=m.get("detected_by","")
+    if det.startswith("MISSED"): continue
     rules=re.findall(r"(C\d\d\.[A-Z]+\d*[a-z]?)",det)
     if not rules: continue
     for rule in sorted(set(rules)):
